@@ -68,6 +68,9 @@ def _keys(prop: str, program: Program):
     return ctx
 
 
+_BASE = None
+
+
 def _run_mutant(args):
     prop, kind, spec, base_keys = args
     root = os.environ.get("SA_REPO", "/repo")
@@ -85,7 +88,10 @@ def _run_mutant(args):
     except SyntaxError as e:
         return (spec.id, "broken", f"mutant does not compile: {e}")
     try:
-        program = Program(overrides={spec.rel: new_src})
+        global _BASE
+        if _BASE is None:
+            _BASE = Program()
+        program = _BASE.derive({spec.rel: new_src})
         ctx = _keys(prop, program)
         keys = {f.key for f in ctx.findings}
         rules = {(f.rule, f.qual) for f in ctx.findings if f.key not in base_keys}
